@@ -79,7 +79,7 @@ first contact and is caught now):
 | C16-r3m1 a new subscriber is handed the previous publication's buffer | publications were single loop iterations with the subscriber present from the start | `run_loop` scenarios: subscribers joining/leaving mid-period, every frame checked at the moment it is put (C08 caught it as `stale_frame` meanwhile) |
 
 **False alarms found and removed.** Wide seed sweeps of the full checks on the unchanged tree
-(`vp run` snapshots: 80 + 400 + 300 + 200 + 200 check runs over seeds 2–69, plus five `vp check` runs)
+(`vp run` snapshots: 80 + 400 + 300 + 200 + 200 + 160 check runs over seeds 2–77, plus six `vp check` runs)
 raised two alarms, both oracle bugs, both fixed at the root and pinned in `corpus/`: the
 weather-station C05 oracle decided "acknowledged" from the typed text instead of the framer's
 segmentation (`Tw dn01 --1 …`, seed 4); the MSCU C05 oracle tested the theorem's precondition
@@ -90,8 +90,8 @@ false-alarm sources — receiver C05 (an interleaved random request could itself
 the known DIO 11/12 finding, ≈ 1 seed in 40), C07's real-timer smoke run (a cancelled-but-not-yet-
 exited Timer thread under load), totalpower/dbesm C03 "state-neutral" histories that glued a
 truncated piece to garbage into a valid write (≈ 1 seed in 120) — and hardened C08's baton
-scheduler so that a hand-off timeout under load is a note, never a violation. The last two sweeps
-(seeds 46–55 and 60–69, all 20 properties, after the hardening) and `vp check` had no alarm.
+scheduler so that a hand-off timeout under load is a note, never a violation. The last three sweeps
+(seeds 46–55, 60–69 and 70–77, all 20 properties, after the hardening) and `vp check` had no alarm.
 
 ### Round 1
 
